@@ -15,11 +15,13 @@
      C03_put, C03_delete, C03_sync, C03_close
      C04_recover_after_crashed_recovery, C04_chain (inductive [epochs], [recoveries], [history];
        specification [spec_epochs]), C04_epoch
-     crash_promote                    ready for the compaction micro-step "promote"
+     crash_compact_pick, crash_compact_step, C03_compact_step, C03_compact_pick   compaction (CInv of
+       DBProofsCompact.v); write_record_shape, remove_segment_shape, compact_step_shape: the events
+     crash_promote                    the promotion micro-step from first principles (not used by the above)
      crash_put_nonvacuous, crash_put_nonvacuous_recover   concrete instance with a torn image *)
 From Coq Require Import ZArith Lia ZifyN ZifyNat ZifyBool Permutation.
 From Pogreb Require Import Base BaseLemmas Crc Bytes Record RecordProofs Flat Spec DB DBInv DBLemmas
-  DBProofsOps DBProofsRecovery.
+  DBProofsOps DBMeta DBProofsRecovery DBProofsCompact.
 Ltac Zify.zify_post_hook ::= Z.div_mod_to_equations.
 
 Local Notation disk := (@DB.disk flat).
@@ -719,7 +721,7 @@ Proof.
     exists s2, true. split; [exact E2|]. split; [exact HI2|]. split; [exact Hm2|]. split; [exact Hb2|].
     intros k. rewrite Ha2. apply Hc.
   - destruct (s_mem s) as [m|] eqn:Em; [|congruence].
-    pose proof (close_reopen_ok P seed (clear_trace s) m HP (Inv_clear P s HI) Em) as H.
+    pose proof (close_reopen_ok_nometa P seed (clear_trace s) m HP (Inv_clear P s HI) Em) as H.
     pose proof (close_reopen_bac P seed (clear_trace s) m (Inv_clear P s HI) Em) as Hbb.
     pose proof (close_ok P (clear_trace s) m (Inv_clear P s HI) Em) as Hc.
     rewrite Ec in H, Hbb, Hc. destruct Hc as (_ & Hm1 & _).
@@ -937,24 +939,62 @@ Proof.
   destruct f; try destruct Hx. split; [reflexivity|split; [reflexivity|exact Logic.I]].
 Qed.
 
-Lemma srun_recover P (s : st) (m : mem) : Good (s_disk s) -> srun s (fst (recover flat_ops P s m)).
+(* recover(): the loop, then swapSegment (D13: it picks the newest segment; in a recovery it finds it
+   writable and emits nothing -- but the proof below does not need to know that: should it create a new
+   segment file, the step is safe because the disk it leads to is well-formed), the index, the *.bac files *)
+Lemma srun_recover P (s : st) (m : mem) :
+  Good (s_disk s) -> DiskOK (s_disk (fst (recover flat_ops P s m))) -> srun s (fst (recover flat_ops P s m)).
 Proof.
   intros Hg. unfold recover.
   pose proof (srun_recover_loop P (by_seq (m_segs m)) s m Hg) as S1.
   destruct (fold_left _ (by_seq (m_segs m)) (s, m)) as [s1 m1]. cbn [fst] in S1 |- *.
   destruct (srun_good _ _ S1 Hg) as [Hg1 _].
   set (m2 := seal_all_but_last (by_seq (m_segs m)) m1).
-  assert (S2 : srun s1 (emit flat_ops (EIndex (m_idx m2)) s1)).
-  { apply nrun_srun; [apply nrun_emit; apply neutral_index|exact Hg1]. }
-  destruct (srun_good _ _ S2 Hg1) as [Hg2 _].
-  eapply srun_trans; [exact S1|]. eapply srun_trans; [exact S2|].
-  apply nrun_srun; [apply nrun_remove_bac; apply Hg2|exact Hg2].
+  assert (Tail : forall (s1' : st) (m3 : mem), Good (s_disk s1') ->
+            srun s1' (remove_bac flat_ops (emit flat_ops (EIndex (m_idx m3)) s1'))).
+  { intros s1' m3 Hg'.
+    assert (S2 : srun s1' (emit flat_ops (EIndex (m_idx m3)) s1')).
+    { apply nrun_srun; [apply nrun_emit; apply neutral_index|exact Hg']. }
+    destruct (srun_good _ _ S2 Hg') as [Hg2 _].
+    eapply srun_trans; [exact S2|]. apply nrun_srun; [apply nrun_remove_bac; apply Hg2|exact Hg2]. }
+  unfold swap_segment.
+  destruct (find (fun g => negb (sm_full (g_meta g))) (m_segs m2)) as [gc|].
+  - cbn [fst]. intros _. eapply srun_trans; [exact S1|]. apply Tail. exact Hg1.
+  - cbv zeta. set (id := lowest_free 0 (m_segs m2)). set (seq := m_maxseq m2 + 1).
+    set (s1' := emits flat_ops [ECreate (FSeg id seq); EHeader (FSeg id seq)] s1).
+    match goal with |- context [m_idx ?x] => set (m3 := x) end.
+    cbn [fst]. intros HokF.
+    assert (Ed' : s_disk s1' = run_evs [ECreate (FSeg id seq); EHeader (FSeg id seq)] (s_disk s1)) by apply s_disk_emits.
+    destruct Hg1 as (Hok1 & Hb1 & Hl1).
+    destruct (lock_bac_step _ (ECreate (FSeg id seq)) eq_refl Logic.I Hb1 Hl1) as [Hb1a Hl1a].
+    destruct (lock_bac_step _ (EHeader (FSeg id seq)) eq_refl Logic.I Hb1a Hl1a) as [Hb1' Hl1'].
+    destruct (lock_bac_step _ (EIndex (m_idx m3)) eq_refl Logic.I Hb1' Hl1') as [Hb2 _].
+    assert (N3 : nrun s1' (remove_bac flat_ops (emit flat_ops (EIndex (m_idx m3)) s1'))).
+    { eapply nrun_trans; [apply nrun_emit; apply neutral_index|]. apply nrun_remove_bac.
+      rewrite s_disk_emit, Ed'. exact Hb2. }
+    assert (Hok1' : DiskOK (s_disk s1')).
+    { destruct N3 as (es & _ & D & Hn & _).
+      assert (Hsl : same_log (s_disk s1') (run_evs es (s_disk s1'))).
+      { apply (no_log_images_same_log es); [|apply crash_image_full].
+        apply Forall_forall. intros e He. rewrite Forall_forall in Hn. apply (Hn e He). }
+      rewrite <- D in Hsl. apply (same_log_DiskOK _ _ (same_log_sym _ _ Hsl)). exact HokF. }
+    assert (S2 : srun s1 s1').
+    { exists [ECreate (FSeg id seq); EHeader (FSeg id seq)]. split; [apply s_trace_emits|]. split; [exact Ed'|].
+      apply create_header_safe; [split; [exact Hok1|split; assumption]|]. rewrite <- Ed'. exact Hok1'. }
+    eapply srun_trans; [exact S1|]. eapply srun_trans; [exact S2|]. apply Tail.
+    split; [exact Hok1'|]. rewrite Ed'. split; assumption.
 Qed.
 
 (* ---- the whole recovering Open ---- *)
 Lemma open_srun P seed (d : disk) : Good d -> srun (closed d) (fst (db_open flat_ops P seed (closed d))).
 Proof.
   intros Hg. pose proof Hg as (Hok & Hbac & Hlock).
+  assert (HokF : DiskOK (s_disk (fst (db_open flat_ops P seed (closed d))))).
+  { pose proof (open_recover_gen P seed (closed d) eq_refl Hok Hbac Hlock) as HR.
+    destruct (db_open flat_ops P seed (closed d)) as [sf of]. cbn [fst].
+    destruct HR as (_ & HIf & Hmf & _). destruct (s_mem sf) as [mf|] eqn:Emf; [|congruence].
+    apply (Inv_open P sf mf Emf HIf). }
+  revert HokF.
   unfold db_open. change (s_mem (closed d)) with (@None mem). cbv iota.
   change (d_lock (s_disk (closed d))) with (d_lock d). rewrite Hlock. cbv iota.
   (* backupNonsegmentFiles *)
@@ -990,8 +1030,8 @@ Proof.
   (* recover *)
   match goal with |- context [recover flat_ops P s4 ?m] => set (m2 := m) end.
   pose proof (srun_recover P s4 m2 Hg4) as S5.
-  destruct (recover flat_ops P s4 m2) as [s5 m3]. cbn [fst] in S5 |- *.
-  eapply srun_trans; [exact S04|]. eapply srun_trans; [exact S5|].
+  destruct (recover flat_ops P s4 m2) as [s5 m3]. cbn [fst] in S5 |- *. intros HokF.
+  eapply srun_trans; [exact S04|]. eapply srun_trans; [exact (S5 HokF)|].
   apply srun_same; reflexivity.
 Qed.
 
@@ -1236,6 +1276,196 @@ Proof.
 Qed.
 
 (* ================================================================================================ *)
+(* 7b. C03 for compaction: the pick (seals only) and every micro-step                              *)
+
+(* writeRecord: the shape of its events (write_record_spec without [params_ok]) *)
+Lemma write_record_shape P r (s : st) (m : mem) :
+  InvLog m (s_disk s) -> room m -> rec_fits r ->
+  exists s' m' id off seq pre,
+    write_record flat_ops P r s m = Some (s', m', id, off) /\
+    s_trace s' = s_trace s ++ pre ++ [EAppend id seq off r] /\
+    s_disk s' = run_evs (pre ++ [EAppend id seq off r]) (s_disk s) /\
+    wr_pre_shape pre id seq.
+Proof.
+  intros HI Hroom Hr. rewrite write_record_eq.
+  destruct (wr_prelude_spec P r s m HI Hroom)
+    as (s1 & m1 & g & pre & E1 & HI1 & Hroom1 & Ec1 & Hnf1 & _ & _ & _ & _ & _ & Et1 & Ed1 & Hp1).
+  rewrite E1.
+  destruct (append_step m1 (s_disk s1) r g HI1 Hroom1 Hr Ec1 Hnf1) as (f & Hfind & Efseq & Efl & Hlt & _).
+  unfold wr_tail. rewrite Ec1, Hfind, Efseq, Efl, !N.eqb_refl. cbn [andb negb].
+  rewrite (u32_small _ Hlt).
+  eexists _, _, (g_id g), (g_size g), (g_seq g), pre. split; [reflexivity|].
+  split; [rewrite s_trace_emit, Et1, app_assoc; reflexivity|].
+  split; [rewrite s_disk_emit, fold_left_app, <- Ed1; reflexivity|exact Hp1].
+Qed.
+
+(* removeSegment: neutral events (Sync of the current segment, removal of the side file), then the
+   removal of the segment file *)
+Lemma remove_segment_shape id seq (s : st) (m : mem) :
+  exists es, Forall neutral es /\
+    s_trace (remove_segment flat_ops id seq s m) = s_trace s ++ es ++ [ERemove (FSeg id seq)] /\
+    s_disk (remove_segment flat_ops id seq s m) = run_evs (es ++ [ERemove (FSeg id seq)]) (s_disk s).
+Proof.
+  unfold remove_segment.
+  set (s1 := do_sync flat_ops s m).
+  assert (N1 : nrun s s1).
+  { unfold s1, do_sync. destruct (cur_seg m); [apply nrun_emit; apply neutral_sync|apply nrun_refl]. }
+  set (s2 := if exists_file (s_disk s1) (FSegMeta id seq) then emit flat_ops (ERemove (FSegMeta id seq)) s1 else s1).
+  assert (N2 : nrun s1 s2).
+  { unfold s2. destruct (exists_file (s_disk s1) (FSegMeta id seq)); [|apply nrun_refl].
+    apply nrun_emit. split; [reflexivity|split; [reflexivity|exact Logic.I]]. }
+  destruct (nrun_trans _ _ _ N1 N2) as (es & T & D & Hn & _). exists es. split; [exact Hn|].
+  cbn [with_mem s_trace s_disk]. rewrite s_trace_emit, s_disk_emit, T, D, fold_left_app, <- app_assoc.
+  split; reflexivity.
+Qed.
+
+(* the three kinds of micro-step, by their events *)
+Lemma compact_step_shape P (s : st) (c : cursor) s' c' :
+  Inv P s -> (exists m, s_mem s = Some m /\ room m) ->
+  compact_step flat_ops P s c = CMore s' c' ->
+  (s_trace s' = s_trace s /\ s_disk s' = s_disk s) \/
+  (exists r nid seq noff pre i2, rec_fits r /\ wr_pre_shape pre nid seq /\
+     s_trace s' = s_trace s ++ pre ++ [EAppend nid seq noff r; EIndex i2] /\
+     s_disk s' = run_evs (pre ++ [EAppend nid seq noff r; EIndex i2]) (s_disk s)) \/
+  (exists es id seq, Forall neutral es /\
+     s_trace s' = s_trace s ++ es ++ [ERemove (FSeg id seq)] /\
+     s_disk s' = run_evs (es ++ [ERemove (FSeg id seq)]) (s_disk s)).
+Proof.
+  intros HI (m & Em & Hroom) E. unfold compact_step in E. rewrite Em in E.
+  pose proof (Inv_InvLog P s m Em HI) as HL.
+  destruct (c_src c) as [[[id seq] off]|].
+  2:{ destruct (c_todo c) as [|[id seq] todo]; [discriminate|].
+      left. assert (Es : s' = with_mem (set_msegs m (upd_mseg id (fun g => set_gmeta g (set_full (g_meta g))) (m_segs m))) s) by congruence.
+      rewrite Es. split; reflexivity. }
+  destruct (find_dseg id (s_disk s)) as [f|] eqn:Ef; [|discriminate].
+  destruct (rec_at off (seg_entries f)) as [r|] eqn:Er.
+  - destruct (rdel r); [left; assert (Es : s' = s) by congruence; rewrite Es; split; reflexivity|].
+    cbn [ix_repoint flat_ops] in E.
+    destruct (fl_repoint (m_idx m) (p_hash P (m_seed m) (rk r)) id (u32 off) id (u32 off));
+      [|left; assert (Es : s' = s) by congruence; rewrite Es; split; reflexivity].
+    assert (Hrf : rec_fits r).
+    { destruct (find_dseg_In _ _ _ Ef) as [Hin _]. destruct HL as ((Hok & _) & _).
+      rewrite Forall_forall in Hok. destruct (Hok f Hin) as (Hrecs & _). rewrite Forall_forall in Hrecs.
+      apply Hrecs. apply (seg_entries_In_rec f off r). apply rec_at_In. exact Er. }
+    destruct (write_record_shape P r s m HL Hroom Hrf) as (s1 & m1 & nid & noff & sq & pre & Ew & Et & Ed & Hsh).
+    rewrite Ew in E.
+    destruct (fl_repoint (m_idx m1) (p_hash P (m_seed m) (rk r)) id (u32 off) nid noff) as [i2|]; [|discriminate].
+    right. left. exists r, nid, sq, noff, pre, i2. split; [exact Hrf|]. split; [exact Hsh|].
+    assert (Es : s' = with_mem (set_idx m1 i2) (emit flat_ops (EIndex i2) s1)) by congruence.
+    rewrite Es. cbn [with_mem s_trace s_disk]. rewrite s_trace_emit, s_disk_emit, Et, Ed. split.
+    + rewrite <- !app_assoc. reflexivity.
+    + rewrite !fold_left_app. reflexivity.
+  - destruct (negb ((flen f =? off) && (f_seq f =? seq))); [discriminate|].
+    right. right. destruct (remove_segment_shape id seq s m) as (es & Hn & T & D).
+    exists es, id, seq. assert (Es : s' = remove_segment flat_ops id seq s m) by congruence.
+    rewrite Es. split; [exact Hn|split; assumption].
+Qed.
+
+Lemma sync_only_images es : forall (d : disk) img,
+  Forall is_sync es -> crash_image d es img -> img = d.
+Proof.
+  induction es as [|e es IH]; intros d img Hs H.
+  - inversion H; subst. reflexivity.
+  - inversion Hs as [|? ? (i & q & ->) Hs']; subst.
+    inversion H as [d0 es0|d0 e0 es0 img0 H'|]; subst; [reflexivity|].
+    apply (IH _ _ Hs' H').
+Qed.
+
+(* pickForCompaction + seal: Sync calls only; every image is the disk itself *)
+Theorem crash_compact_pick P (s s' : st) (c : cursor) :
+  Inv P s -> s_mem s <> None -> bac_ok (s_disk s) ->
+  compact_pick flat_ops P (clear_trace s) = Some (s', c) ->
+  Forall is_sync (s_trace s') /\ s_disk s' = s_disk s /\
+  forall img, crash_image (s_disk s) (s_trace s') img ->
+  img = s_disk s /\ DiskOK img /\ bac_ok img /\ d_lock img = true /\
+  forall k, sget (abs img) k = sget (abs (s_disk s)) k.
+Proof.
+  intros HI Hm Hb E. pose proof (Inv_Good P s HI Hm Hb) as (G1 & G2 & G3).
+  destruct (s_mem s) as [m|] eqn:Em; [|congruence].
+  pose proof (Inv_InvLog P s m Em HI) as (_ & _ & Hinc & _).
+  unfold compact_pick in E. cbn [clear_trace s_mem] in E. rewrite Em in E.
+  destruct (cp_seal_all (pick P m) (clear_trace s) m Hinc) as (s1 & m1 & Ef & _ & Ed & _ & (es & Et & Hs) & _).
+  rewrite Ef in E. injection E as <- _. cbn [with_mem s_trace s_disk]. cbn [clear_trace s_trace s_disk app] in Et, Ed.
+  rewrite Et, Ed. split; [exact Hs|]. split; [reflexivity|].
+  intros img Himg. rewrite (sync_only_images es _ _ Hs Himg).
+  split; [reflexivity|]. split; [exact G1|]. split; [exact G2|]. split; [exact G3|]. reflexivity.
+Qed.
+
+(* one micro-step of Compact: start of a segment / skip of a dead record (no event), promotion of a
+   live record (writeRecord of a COPY, then the index), removal of the exhausted segment *)
+Theorem crash_compact_step P (s : st) (c : cursor) s' c' :
+  Inv P s -> CInv s c -> (exists m, s_mem s = Some m /\ room m) -> bac_ok (s_disk s) ->
+  compact_step flat_ops P (clear_trace s) c = CMore s' c' ->
+  forall img, crash_image (s_disk s) (s_trace s') img ->
+  DiskOK img /\ bac_ok img /\ d_lock img = true /\ forall k, sget (abs img) k = sget (abs (s_disk s)) k.
+Proof.
+  intros HI HC Hroom Hb E img Himg.
+  assert (Hmn : s_mem s <> None) by (destruct Hroom as (m & -> & _); discriminate).
+  pose proof (Inv_Good P s HI Hmn Hb) as Hg.
+  assert (HC' : CInv (clear_trace s) c) by exact HC.
+  pose proof (compact_step_ok_ex P (clear_trace s) c (Inv_clear P s HI) HC' Hroom) as Hpost.
+  rewrite E in Hpost. destruct Hpost as (HI' & _ & Hm' & Habs & _ & _ & _ & Hbac').
+  cbn [clear_trace s_disk] in Habs, Hbac'.
+  assert (Hb' : bac_ok (s_disk s')) by (unfold bac_ok; rewrite Hbac'; exact Hb).
+  pose proof (Inv_Good P s' HI' Hm' Hb') as Hg'.
+  destruct (compact_step_shape P (clear_trace s) c s' c' (Inv_clear P s HI) Hroom E)
+    as [(T & _)|[(r & nid & sq & noff & pre & i2 & Hrf & Hsh & T & D)|(es & id & seq & Hn & T & D)]];
+    cbn [clear_trace s_trace s_disk] in T; try rewrite app_nil_l in T.
+  - rewrite T in Himg. inversion Himg; subst. destruct Hg as (G1 & G2 & G3).
+    split; [exact G1|]. split; [exact G2|]. split; [exact G3|]. reflexivity.
+  - cbn [clear_trace s_disk] in D. rewrite T in Himg.
+    rewrite <- (app_nil_r [EAppend nid sq noff r; EIndex i2]) in Himg.
+    destruct (write_crash (s_disk s) (s_disk s') r nid sq noff pre i2 [] img Hg Hsh (or_introl eq_refl) D
+                (proj1 Hg') (Inv_tails_nil P s' HI' Hm') Hrf Himg) as ((G1 & G2 & G3) & Ho).
+    split; [exact G1|]. split; [exact G2|]. split; [exact G3|]. intros k.
+    destruct Ho as [Ho|Ho]; rewrite (olog_abs _ _ Ho); [reflexivity|apply Habs].
+  - cbn [clear_trace s_disk] in D. rewrite T in Himg.
+    destruct (crash_image_split _ _ _ _ Himg) as [Hl|Hr].
+    + destruct (neutral_images es (s_disk s) img Hn Hg Hl) as ((G1 & G2 & G3) & Ho).
+      split; [exact G1|]. split; [exact G2|]. split; [exact G3|]. intros k. rewrite (olog_abs _ _ Ho). reflexivity.
+    + destruct (crash_image_single _ (ERemove (FSeg id seq)) _ eq_refl Hr) as [-> | ->].
+      * destruct (neutral_images es (s_disk s) _ Hn Hg (crash_image_full es _)) as ((G1 & G2 & G3) & Ho).
+        split; [exact G1|]. split; [exact G2|]. split; [exact G3|]. intros k. rewrite (olog_abs _ _ Ho). reflexivity.
+      * rewrite fold_left_app in D. cbn [fold_left] in D. rewrite <- D.
+        destruct Hg' as (G1 & G2 & G3). split; [exact G1|]. split; [exact G2|]. split; [exact G3|exact Habs].
+Qed.
+
+Theorem C03_compact_step P seed (s : st) (c : cursor) s' c' img :
+  params_ok P -> Inv P s -> CInv s c -> (exists m, s_mem s = Some m /\ room m) -> bac_ok (s_disk s) ->
+  compact_step flat_ops P (clear_trace s) c = CMore s' c' ->
+  crash_image (s_disk s) (s_trace s') img ->
+  exists s2, db_open flat_ops P seed {| s_mem := None; s_disk := img; s_trace := [] |} = (s2, OOpened true) /\
+    Inv P s2 /\ s_mem s2 <> None /\ bac_ok (s_disk s2) /\
+    (forall k, sget (abs (s_disk s2)) k = sget (abs (s_disk s)) k) /\
+    (forall k, sget (abs (s_disk s2)) k = sget (abs (s_disk s')) k).
+Proof.
+  intros HP HI HC Hroom Hb E Himg.
+  destruct (crash_compact_step P s c s' c' HI HC Hroom Hb E img Himg) as (G1 & G2 & G3 & Hc).
+  destruct (crash_then_recover P seed img HP G1 G2 G3) as (s2 & E2 & HI2 & Hm2 & Hb2 & Ha2).
+  exists s2. split; [exact E2|]. split; [exact HI2|]. split; [exact Hm2|]. split; [exact Hb2|].
+  assert (HC' : CInv (clear_trace s) c) by exact HC.
+  pose proof (compact_step_ok P (clear_trace s) c (Inv_clear P s HI) HC' Hroom) as Hpost.
+  rewrite E in Hpost. destruct Hpost as (_ & _ & _ & Habs). cbn [clear_trace s_disk] in Habs.
+  split; intros k; rewrite Ha2, Hc; [reflexivity|symmetry; apply Habs].
+Qed.
+
+Theorem C03_compact_pick P seed (s s' : st) (c : cursor) img :
+  params_ok P -> Inv P s -> s_mem s <> None -> bac_ok (s_disk s) ->
+  compact_pick flat_ops P (clear_trace s) = Some (s', c) ->
+  crash_image (s_disk s) (s_trace s') img ->
+  exists s2, db_open flat_ops P seed {| s_mem := None; s_disk := img; s_trace := [] |} = (s2, OOpened true) /\
+    Inv P s2 /\ s_mem s2 <> None /\ bac_ok (s_disk s2) /\
+    (forall k, sget (abs (s_disk s2)) k = sget (abs (s_disk s)) k).
+Proof.
+  intros HP HI Hm Hb E Himg.
+  destruct (crash_compact_pick P s s' c HI Hm Hb E) as (_ & _ & H).
+  destruct (H img Himg) as (_ & G1 & G2 & G3 & Hc).
+  destruct (crash_then_recover P seed img HP G1 G2 G3) as (s2 & E2 & HI2 & Hm2 & Hb2 & Ha2).
+  exists s2. split; [exact E2|]. split; [exact HI2|]. split; [exact Hm2|]. split; [exact Hb2|].
+  intros k. rewrite Ha2. apply Hc.
+Qed.
+
+(* ================================================================================================ *)
 (* 8. Non-vacuity: a concrete database, a Put that has to start a new segment, a torn image of it   *)
 Definition ex_P : params :=
   {| p_maxseg := 540; p_minseg := 0; p_frag := fun _ _ => false; p_sync := true;
@@ -1365,11 +1595,6 @@ Proof.
 Qed.
 
 (* ================================================================================================ *)
-(* Item 5 of the plan (crash_compact_step) needs the cursor invariant [CInv] of DBProofsCompact.v, which
-   did not exist when this file was written: not stated here.  [crash_promote] above is the part that
-   does not need it (the promotion micro-step); the removal micro-step (ESync, ERemove of the side file,
-   ERemove of the segment file) keeps the contents only if no record of the removed segment is live
-   and none of its delete records still shadows an older put, which is what [CInv] has to provide. *)
 
 Print Assumptions crash_image_split.
 Print Assumptions image_facts_indep.
@@ -1388,5 +1613,9 @@ Print Assumptions crash_open_recover.
 Print Assumptions C04_recover_after_crashed_recovery.
 Print Assumptions C04_chain.
 Print Assumptions C04_epoch.
+Print Assumptions crash_compact_pick.
+Print Assumptions crash_compact_step.
+Print Assumptions C03_compact_step.
+Print Assumptions C03_compact_pick.
 Print Assumptions crash_put_nonvacuous.
 Print Assumptions crash_put_nonvacuous_recover.
